@@ -104,6 +104,7 @@ fn run_tokens(toks: &[&str]) -> String {
         "IDPAIR" => chan_id::idpair(args),
         "IDREF" => chan_id::idref(args),
         "SRREF" => chan_id::srref(args),
+        "SRREFE" => chan_id::srrefe(args),
         "FFI" => chan_ffi::ffi(args),
         "ADMENC" => chan_adm::admenc(args),
         "ADMSPEC" => chan_adm::admspec(args),
